@@ -654,7 +654,7 @@ Definition Inv (w : wst) (M : fmap) : Prop :=
   linked_ok (fsys w) /\ no_tmp (fsys w) /\ cur_ok (fsys w) (cur w) /\ agrees M (fsys w).
 
 Lemma bool_eq_iff (b1 b2 : bool) : (b1 = true <-> b2 = true) -> b1 = b2.
-Proof. destruct b1, b2; intros [H1 H2]; auto; [apply H1; reflexivity|symmetry; apply H2; reflexivity]. Qed.
+Proof. destruct b1, b2; intros [H1 H2]; try reflexivity; [symmetry; apply H1; reflexivity|apply H2; reflexivity]. Qed.
 
 Lemma agrees_put M s s' a : agrees M s -> (forall p, linked s' p <-> linked s p \/ p = tpa a) ->
   agrees (upd M a (Some (content a))) s'.
@@ -706,8 +706,8 @@ Proof.
   intros (L & NT & CU & A) OK. destruct w as [s cu]. simpl in L, NT, CU, A.
   destruct o as [a d|l| |a|a|a|a cap|a|]; unfold step; cbn [op_trace ref_step].
   - (* Put *)
-    simpl in OK. unfold t_put. cbn [fsys cur]. destruct OK as [OK|[[G NP] _]]; simpl in OK.
-    { subst d. simpl. repeat split; auto. }
+    simpl in OK. unfold t_put. cbn [fsys cur]. destruct OK as [OK|[G NP]].
+    { simpl in OK. subst d. simpl. split; [exact (conj L (conj NT (conj CU A)))|split; [reflexivity|exact I]]. }
     simpl in G, NP. assert (NN : is_nil d = false) by (destruct G as [NE _]; destruct d; [congruence|reflexivity]).
     rewrite NN. unfold ref_put. cbn [fst snd]. destruct G as [NE [D LD]]. rewrite D.
     assert (G : good a d) by (split; [exact NE|split; assumption]).
@@ -747,18 +747,18 @@ Proof.
     + destruct CU as [Hi (rs & Gr & Ei)].
       destruct ((climit c <=? S cnt) || (slimit c <=? sz + combined_data_off + length d)).
       * destruct (CB s i rs [] eq_refl I L NT (fun p => iff_refl _) Hi Ei Gr [ScSync; ScClose] None) as [H1 H2];
-          [intros x [<-|[<-|[]]]; auto|auto|]. simpl app in *. cbn [fst snd fsys cur]. repeat split; try apply H1; exact H2.
+          [intros x [<-|[<-|[]]]; auto|auto|]. simpl app in *. cbn [fst snd fsys cur]. split; [exact H1|split; [reflexivity|exact H2]].
       * destruct (CB s i rs [] eq_refl I L NT (fun p => iff_refl _) Hi Ei Gr [] (Some (i, S cnt, sz + combined_data_off + length d))) as [H1 H2];
-          [intros x []|eauto|]. simpl app in *. rewrite app_nil_r in *. cbn [fst snd fsys cur]. repeat split; try apply H1; exact H2.
+          [intros x []|eauto|]. simpl app in *. cbn [fst snd fsys cur]. split; [exact H1|split; [reflexivity|exact H2]].
     + set (n := length (inodes s)).
       assert (L0 : linked_ok (exec s ScOpenTmp)) by (apply exec_ok; [exact L|exact I]).
       assert (Hn : n < length (inodes (exec s ScOpenTmp))) by (simpl; rewrite app_length; simpl; unfold n; lia).
       assert (En : nth n (inodes (exec s ScOpenTmp)) [] = records []) by (simpl; unfold n; rewrite app_nth2, Nat.sub_diag by lia; reflexivity).
       destruct ((climit c <=? 1) || (slimit c <=? 0 + combined_data_off + length d)).
       * destruct (CB (exec s ScOpenTmp) n [] [ScOpenTmp] eq_refl (conj I I) L0 NT (fun p => iff_refl _) Hn En recs_good_nil [ScSync; ScClose] None) as [H1 H2];
-          [intros x [<-|[<-|[]]]; auto|auto|]. cbn [fst snd fsys cur]. repeat split; try apply H1; exact H2.
+          [intros x [<-|[<-|[]]]; auto|auto|]. cbn [fst snd fsys cur]. split; [exact H1|split; [reflexivity|exact H2]].
       * destruct (CB (exec s ScOpenTmp) n [] [ScOpenTmp] eq_refl (conj I I) L0 NT (fun p => iff_refl _) Hn En recs_good_nil [] (Some (n, 1, 0 + combined_data_off + length d))) as [H1 H2];
-          [intros x []|eauto|]. rewrite app_nil_r in *. cbn [fst snd fsys cur]. repeat split; try apply H1; exact H2.
+          [intros x []|eauto|]. simpl app in *. cbn [fst snd fsys cur]. split; [exact H1|split; [reflexivity|exact H2]].
   - (* PutBatch *)
     simpl in OK. pose proof (nonempty_good l OK) as F. unfold t_batch. cbn [fsys cur]. destruct (generic c).
     + destruct (generic_batch_run (nonempty l) s L NT F) as (Ok & S1 & Len & O & Lk & NT1).
@@ -773,18 +773,20 @@ Proof.
       destruct (records_run n (nonempty l) (exec s ScOpenTmp) [] L0 Hn En recs_good_nil F) as (S1 & Len & O & Lk & NT1).
       change (ScOpenTmp :: ?x ++ [ScSync; ScClose]) with ([ScOpenTmp] ++ x ++ [ScSync; ScClose]).
       rewrite !run_trace_app. change (run_trace s [ScOpenTmp]) with (exec s ScOpenTmp).
-      set (s1 := run_trace (exec s ScOpenTmp) _) in *. change (run_trace s1 [ScSync; ScClose]) with s1.
+      set (s1 := run_trace (exec s ScOpenTmp) _) in *. change (run_trace s1 [ScSync; ScClose]) with s1. cbn [fsys cur].
       split; [|split; [reflexivity|]].
       * split; [apply trace_ok; assumption|]. split; [apply NT1; exact NT|]. split.
-        -- eapply cur_ok_pres; [| |exact CU]; [rewrite Len; simpl; rewrite app_length; lia|].
-           intros i cnt sz _ Hi. rewrite O by (unfold n; lia). simpl. apply app_nth1. exact Hi.
+        -- eapply cur_ok_pres; [| |exact CU]; [cbn [fsys]; rewrite Len; simpl; rewrite app_length; lia|].
+           intros i cnt sz _ Hi. cbn [fsys] in *. rewrite O by (unfold n; lia). simpl. apply app_nth1. exact Hi.
         -- eapply agrees_batch; [exact F|exact A|]. intros p. rewrite Lk. unfold linked. simpl. reflexivity.
       * apply safe_trace_app. split; [simpl; auto|]. apply safe_trace_app. split; [exact S1|]. simpl. auto.
   - (* timer *)
-    cbn [fst snd fsys cur]. unfold t_sync. cbn [cur]. destruct cu as [[[i cnt] sz]|]; simpl; repeat split; auto.
+    cbn [fst snd fsys cur]. unfold t_sync. cbn [cur].
+    assert (E : run_trace s (match cu with Some _ => [ScSync; ScClose] | None => [] end) = s) by (destruct cu; reflexivity).
+    rewrite E. split; [exact (conj L (conj NT (conj I A)))|]. split; [exact I|]. destruct cu; simpl; auto.
   - (* Delete *)
     cbn [fsys cur]. rewrite (A a). destruct (exists_ nm c s a) eqn:E; cbn [fst snd fsys cur is_some].
-    + split; [|split; [reflexivity|simpl; auto]]. change (run_trace s [ScUnlink (tpa a)]) with (exec s (ScUnlink (tpa a))).
+    + split; [|split; [reflexivity|simpl; auto]]. unfold Inv. cbn [fsys cur]. change (run_trace s [ScUnlink (tpa a)]) with (exec s (ScUnlink (tpa a))).
       split; [apply exec_ok; [exact L|exact I]|]. split; [|split].
       * intros p i I. simpl in I. apply in_remove in I. apply (NT p i). tauto.
       * eapply cur_ok_pres; [| |exact CU]; simpl; auto.
@@ -794,22 +796,22 @@ Proof.
         -- rewrite A. replace (exists_ nm c (exec s (ScUnlink (tpa a))) a') with (exists_ nm c s a'); [reflexivity|].
            apply bool_eq_iff. rewrite !exists_linked, linked_unlink. split; [|tauto]. intros H. split; [exact H|].
            intros Q'. apply tp_inj in Q'. subst. rewrite Nat.eqb_refl in Q. discriminate.
-    + split; [|split; [reflexivity|simpl; auto]]. simpl. split; [exact L|]. split; [exact NT|]. split; [exact CU|].
+    + split; [|split; [reflexivity|simpl; auto]]. unfold Inv. cbn [fsys cur run_trace fold_left]. split; [exact L|]. split; [exact NT|]. split; [exact CU|].
       intros a'. unfold upd. destruct (Nat.eqb a' a) eqn:Q; [|apply A]. apply Nat.eqb_eq in Q. subst. rewrite E. reflexivity.
   - (* Get / GetBytes *)
-    cbn [fst snd fsys cur]. split; [repeat split; assumption|]. split; [|simpl; auto].
+    cbn [fst snd fsys cur]. split; [exact (conj L (conj NT (conj CU A)))|]. split; [|simpl; auto].
     simpl. rewrite (proj1 (reads_ok s a L)), (A a). destruct (exists_ nm c s a); reflexivity.
   - (* Head / GetStream *)
-    cbn [fst snd fsys cur]. split; [repeat split; assumption|]. split; [|simpl; auto].
+    cbn [fst snd fsys cur]. split; [exact (conj L (conj NT (conj CU A)))|]. split; [|simpl; auto].
     simpl. rewrite (proj1 (proj2 (reads_ok s a L))), (A a). destruct (exists_ nm c s a); reflexivity.
   - (* ReadObject / ReadHeader *)
-    cbn [fst snd fsys cur]. split; [repeat split; assumption|]. split; [|simpl; auto].
+    cbn [fst snd fsys cur]. split; [exact (conj L (conj NT (conj CU A)))|]. split; [|simpl; auto].
     simpl. rewrite (proj2 (proj2 (reads_ok s a L)) cap OK), (A a). destruct (exists_ nm c s a); reflexivity.
   - (* Exists *)
-    cbn [fst snd fsys cur]. split; [repeat split; assumption|]. split; [|simpl; auto].
+    cbn [fst snd fsys cur]. split; [exact (conj L (conj NT (conj CU A)))|]. split; [|simpl; auto].
     simpl. rewrite (A a). destruct (exists_ nm c s a); reflexivity.
   - (* Iterate *)
-    cbn [fst snd fsys cur]. split; [repeat split; assumption|]. split; [|simpl; auto].
+    cbn [fst snd fsys cur]. split; [exact (conj L (conj NT (conj CU A)))|]. split; [|simpl; auto].
     destruct (iterate_ok s L) as (r & E & ND & Sp). simpl. rewrite E. split; [exact ND|].
     intros a x. rewrite Sp, (A a). destruct (exists_ nm c s a); split; try (intros [-> _]; reflexivity); try (intros [_ H]; discriminate); try discriminate.
     intros H. inversion H. auto.
@@ -828,6 +830,130 @@ Qed.
 Lemma Inv_init : Inv init_w (fun _ => None).
 Proof.
   split; [split; [constructor|intros p i []]|]. split; [intros p i []|]. split; [exact I|]. intros a. reflexivity.
+Qed.
+
+(* ---- C12: a crash = a prefix of the trace, the interrupted write torn ------------------------------ *)
+
+Lemma safe_firstn t : forall s k, safe_trace s t -> safe_trace s (firstn k t).
+Proof. induction t as [|x t IH]; intros s [|k]; simpl; auto. intros [H1 H2]. split; auto. Qed.
+
+Lemma safe_nth t : forall s k x, safe_trace s t -> nth_error t k = Some x -> safe (run_trace s (firstn k t)) x.
+Proof.
+  induction t as [|y t IH]; intros s [|k] x; simpl; try discriminate.
+  - intros [H _] E. inversion E; subst. exact H.
+  - intros [_ H] E. apply IH; auto.
+Qed.
+
+(* whatever the crash point and however much of the interrupted write reached the file: the
+   invariant holds, so [reads_ok] and [iterate_ok] apply to the state found after the restart *)
+Theorem crash_ok s t k torn : linked_ok s -> safe_trace s t -> linked_ok (crash t k torn s).
+Proof.
+  intros L S. unfold crash. pose proof (trace_ok (firstn k t) s L (safe_firstn t s k S)) as L1.
+  destruct (nth_error t k) as [x|] eqn:E; [|exact L1]. destruct x; try exact L1.
+  apply exec_ok; [exact L1|]. exact (safe_nth t s k _ S E).
+Qed.
+
+(* names disappear only by unlink and by renaming them away *)
+Definition removes (x : sc) (p : path) : bool :=
+  match x with
+  | ScUnlink q => path_eqb q p
+  | ScRename q _ => path_eqb q p
+  | _ => false
+  end.
+
+Lemma exec_keeps s x p : linked s p -> removes x p = false -> linked (exec s x) p.
+Proof.
+  intros H R. destruct x as [|i d|i q|q|q r|q| |]; simpl in R; try exact H.
+  - apply linked_link. auto.
+  - apply linked_excl. auto.
+  - destruct (lookup q (links s)) as [i|] eqn:E; [|simpl; rewrite E; exact H].
+    apply (linked_rename s q r i p E). destruct (path_eqb p r) eqn:Q; [apply path_eqb_eq in Q; auto|].
+    right. split; [exact H|]. split; intros Q'; subst; rewrite path_eqb_refl in *; discriminate.
+  - apply linked_unlink. split; [exact H|]. intros Q. subst. rewrite path_eqb_refl in R. discriminate.
+Qed.
+
+Definition keeps (t : list sc) (p : path) : bool := forallb (fun x => negb (removes x p)) t.
+
+Lemma run_keeps t : forall s p, linked s p -> keeps t p = true -> linked (run_trace s t) p.
+Proof.
+  induction t as [|x t IH]; intros s p H K; simpl; [exact H|]. simpl in K. apply andb_true_iff in K.
+  destruct K as [K1 K2]. apply IH; [|exact K2]. apply exec_keeps; [exact H|]. apply negb_true_iff. exact K1.
+Qed.
+
+Lemma keeps_firstn t p k : keeps t p = true -> keeps (firstn k t) p = true.
+Proof.
+  revert k. induction t as [|x t IH]; intros [|k] K; simpl; auto. simpl in K. apply andb_true_iff in K.
+  destruct K as [K1 K2]. rewrite K1. simpl. apply IH. exact K2.
+Qed.
+
+Theorem crash_keeps s t k torn p : linked s p -> keeps t p = true -> linked (crash t k torn s) p.
+Proof.
+  intros H K. unfold crash. pose proof (run_keeps (firstn k t) s p H (keeps_firstn t p k K)) as H1.
+  destruct (nth_error t k) as [x|]; [|exact H1]. destruct x; exact H1.
+Qed.
+
+Lemma keeps_app t1 t2 p : keeps (t1 ++ t2) p = keeps t1 p && keeps t2 p.
+Proof. apply forallb_app. Qed.
+
+Lemma tmpp_neq a k b : path_eqb (tmpp nm c a k) (tpa b) = false.
+Proof.
+  apply path_eqb_neq. intros E. unfold tmpp, tp in E. apply tree_path_inj in E.
+  pose proof (has_hash_tmp (str nm a) k) as H. rewrite E, str_no_hash in H. discriminate.
+Qed.
+
+(* no writer removes the name of an address; only Delete does *)
+Lemma generic_batch_keeps b : forall l s, keeps (fst (t_generic_batch nm c s l)) (tpa b) = true.
+Proof.
+  induction l as [|[a d] l IH]; intros s; cbn [t_generic_batch]; [reflexivity|].
+  destruct (free_tmp nm c s a) as [k|]; [|reflexivity].
+  specialize (IH (run_trace s (t_generic nm c s a k d))).
+  destruct (t_generic_batch nm c (run_trace s (t_generic nm c s a k d)) l) as [t' ok]. cbn [fst] in *.
+  rewrite keeps_app, IH, andb_true_r. unfold t_generic, keeps. simpl. rewrite tmpp_neq. reflexivity.
+Qed.
+
+Lemma writers_keep w o b : (forall a, o = ODelete a -> a <> b) ->
+  keeps (fst (fst (op_trace dec nm c w o))) (tpa b) = true.
+Proof.
+  intros ND. destruct o as [a d|l| |a|a|a|a cap|a|]; cbn [op_trace]; try reflexivity.
+  - unfold t_put. destruct (is_nil d); [reflexivity|]. destruct (generic c).
+    + destruct (free_tmp nm c (fsys w) a); [|reflexivity]. cbn [fst]. unfold t_generic, keeps. simpl. rewrite tmpp_neq. reflexivity.
+    + destruct (goes_single c d); [reflexivity|].
+      destruct (cur w) as [[[i cnt] sz]|];
+        match goal with |- context [if ?b then _ else _] => destruct b end; reflexivity.
+  - unfold t_batch. destruct (generic c).
+    + pose proof (generic_batch_keeps b (nonempty l) (fsys w)) as K.
+      destruct (t_generic_batch nm c (fsys w) (nonempty l)) as [t ok]. exact K.
+    + cbn [fst]. unfold keeps. simpl. rewrite forallb_app. simpl. rewrite andb_true_r.
+      induction (nonempty l) as [|o r IH]; simpl; [reflexivity|exact IH].
+  - unfold t_sync. destruct (cur w); reflexivity.
+  - destruct (exists_ nm c (fsys w) a); [|reflexivity]. cbn [fst]. unfold keeps. simpl.
+    rewrite path_eqb_neq; [reflexivity|]. intros E. apply tp_inj in E. exact (ND a eq_refl E).
+Qed.
+
+(* C12: any operation interrupted anywhere, from any state a history can reach *)
+Theorem crash_safe w M o k torn : Inv w M -> op_ok o ->
+  let s' := crash (fst (fst (op_trace dec nm c w o))) k torn (fsys w) in
+  linked_ok s' /\
+  forall b, exists_ nm c (fsys w) b = true -> (forall a, o = ODelete a -> a <> b) ->
+            exists_ nm c s' b = true /\ get_bytes dec nm c s' b = GOk (content b).
+Proof.
+  intros I OK s'. destruct (step_refines w M o I OK) as (_ & _ & S). destruct I as (L & _).
+  assert (L' : linked_ok s') by (apply crash_ok; assumption). split; [exact L'|].
+  intros b E ND. assert (E' : exists_ nm c s' b = true).
+  { apply exists_linked. apply crash_keeps; [apply exists_linked; exact E|]. apply writers_keep. exact ND. }
+  split; [exact E'|]. rewrite (proj1 (reads_ok s' b L')), E'. reflexivity.
+Qed.
+
+(* CleanUpTmp keeps the invariant (it only removes names) *)
+Lemma cleanup_ok s : linked_ok s -> linked_ok (cleanup s).
+Proof.
+  intros [ND OK]. split.
+  - unfold cleanup. simpl. clear OK. induction (links s) as [|e l IH]; simpl; [constructor|]. inversion ND; subst.
+    destruct (negb (has_hash (last (fst e) []))); simpl; auto. constructor; auto.
+    intros HI. apply H1. apply in_map_iff in HI. destruct HI as [e' [E1 E2]]. apply filter_In in E2.
+    apply in_map_iff. exists e'. tauto.
+  - intros p i HI. unfold cleanup in HI. simpl in HI. apply filter_In in HI. destruct HI as [HI _].
+    destruct (OK p i HI) as [H1 H2]. split; [exact H1|]. exact H2.
 Qed.
 
 End Discipline.
